@@ -31,6 +31,8 @@ func stressDesc(name string, gen int) *bridgedesc.Target {
 }
 
 func stressPart(w *vc.Writer, r *vc.Rand, service bool) {
+	// (a crash - under the race detector: a report - names this workload as the failing input)
+	w.Current(vc.L{"free-running router stress: 8 goroutines watch / describe twice / close their own target, lookups meanwhile", service, int64(vc.Seed())})
 	old := runtime.GOMAXPROCS(0)
 	if old < 4 {
 		runtime.GOMAXPROCS(4)
